@@ -35,10 +35,11 @@ META = {
     "(discriminant form, exact 32-bit integer arithmetic) for every logged point and compares with what "
     "compute_third_mandelstam / Kibble.doit() / is_within_phasespace(outside_value=o) / Kallen.doit() returned, "
     "exhaustively over all integer (sigma1, sigma2) of the bounding boxes of integer mass configurations "
-    "(m0 <= 7) and over stratified lattice events (massless, equal masses, boundary); the reference itself is "
-    "model-checked on the whole lattice (Kibble <= 0 <=> inside PDG limits for every integer configuration with m0 <= 6 (quick) / 9 (thorough); sigma1*Kibble = m0^2*Disc).",
+    "(m0 <= 7), over stratified lattice events (massless, equal masses, boundary) and over the same points rescaled to "
+    "mass scales 1/1000, 1/100000, 1000 (the property is scale invariant); the reference itself is "
+    "model-checked on the whole lattice (Kibble <= 0 <=> inside PDG limits for every integer configuration with m0 <= 5 (quick) / 9 (thorough); sigma1*Kibble = m0^2*Disc).",
     "note": "Trusted: TLC/SANY, SymPy exact arithmetic for evaluating the implementation, the projection to integers "
-    "(ps3_common.enc_*). Bounds: integer masses m0 <= 7 (quick: the 70 configurations with m0 <= 5 and 10 larger ones; thorough: all 210) and integer "
+    "(ps3_common.enc_*). Bounds: integer masses m0 <= 7 (quick: the 35 configurations with m0 <= 4 and 14 more up to m0 = 7; thorough: all 210) and integer "
     "(sigma1, sigma2) — half-integer points are the integer points of the doubled configuration; events from "
     "integer four-vectors with E <= 3, |p_x,y,z| <= 2, m0^2 <= 49; the edge sigma1 = 0 (m2 = m3 = 0), where the PDG "
     "limits are 0/0, is excluded from the 'exactly when' clause. TLAPS: Kallen lemmas proved; the degree-9 identity "
@@ -91,18 +92,43 @@ def _enc_real(sp, v):
     return [ps.INT_MAX, 1]
 
 
-def _outputs(s1, s2, masses, ovname):
+SCALES = [(1, 1000), (1, 100000), (1000, 1)]  # mass scale factors num/den of the scaled family
+
+
+def _outputs(s1, s2, masses, ovname, scale=(1, 1)):
+    """Outputs of the implementation at the point scaled by lam = num/den (masses * lam, sigma * lam^2,
+    exact rationals / surds).  sigma3 and Kibble are homogeneous (degree 2 and 8 in the masses) and are
+    logged unscaled, the indicator is scale invariant: TLC judges on the integer point."""
     sp, psm, ov = _impl()
-    s3 = psm.compute_third_mandelstam(s1, s2, *masses)
-    kib = psm.Kibble(s1, s2, s3, *masses).doit()
-    if ovname == "default":
-        ind = psm.is_within_phasespace(s1, s2, *masses)
-        o = sp.nan
-    else:
-        o = ov[ovname]
-        ind = psm.is_within_phasespace(s1, s2, *masses, outside_value=o)
-    ind = ind.doit()
-    return {"s3": _enc_real(sp, s3), "kib": _enc_real(sp, kib), "ind": ps.enc_val(ind), "ov": ps.enc_val(o), "ovname": ovname}
+    lam = sp.Rational(*scale)
+    if lam != 1:
+        s1, s2, masses = s1 * lam**2, s2 * lam**2, [m * lam for m in masses]
+    # an exception at a legitimate input is logged as "no value" (it then fails the clauses that need the value)
+    exc = ""
+    try:
+        s3 = psm.compute_third_mandelstam(s1, s2, *masses)
+    except Exception as e:  # noqa: BLE001
+        s3, exc = sp.zoo, f"compute_third_mandelstam:{type(e).__name__}"
+    try:
+        kib = psm.Kibble(s1, s2, s3, *masses).doit()
+    except Exception as e:  # noqa: BLE001
+        kib, exc = sp.zoo, exc or f"Kibble:{type(e).__name__}"
+    o = sp.nan if ovname == "default" else ov[ovname]
+    try:
+        ind = psm.is_within_phasespace(s1, s2, *masses) if ovname == "default" else psm.is_within_phasespace(s1, s2, *masses, outside_value=o)
+        ind = ind.doit()
+    except Exception as e:  # noqa: BLE001
+        ind, exc = sp.zoo, exc or f"is_within_phasespace:{type(e).__name__}"
+    if lam != 1:
+        s3, kib = s3 / lam**2, kib / lam**8
+    return {"s3": _enc_real(sp, s3), "kib": _enc_real(sp, kib), "ind": ps.enc_val(ind), "ov": ps.enc_val(o), "ovname": ovname, "sc": list(scale), "exc": exc}
+
+
+def _kallen(sp, psm, x, y, z):
+    try:
+        return psm.Kallen(x, y, z).doit()
+    except Exception:  # noqa: BLE001 - "no value": fails the Kallen clauses
+        return sp.zoo
 
 
 def evaluate(job):
@@ -111,24 +137,26 @@ def evaluate(job):
     fam, rid = job[0], job[1]
     if fam == "ev":
         ev, ovname = job[2], job[3]
+        scale = job[4] if len(job) > 4 else (1, 1)
         M, S = ps.invariants(ev)
         masses = [sp.sqrt(sp.Integer(x)) for x in M]
         rec = {"k": "ev", "id": rid, "p": [list(p) for p in ev], "M": list(M), "s": [S[0], S[1]]}
-        rec.update(_outputs(sp.Integer(S[0]), sp.Integer(S[1]), masses, ovname))
+        rec.update(_outputs(sp.Integer(S[0]), sp.Integer(S[1]), masses, ovname, scale))
         return rec
     if fam == "box":
         m, s1, s2, ovname = job[2], job[3], job[4], job[5]
+        scale = job[6] if len(job) > 6 else (1, 1)
         rec = {"k": "box", "id": rid, "m": list(m), "s": [s1, s2]}
-        rec.update(_outputs(sp.Integer(s1), sp.Integer(s2), [sp.Integer(x) for x in m], ovname))
+        rec.update(_outputs(sp.Integer(s1), sp.Integer(s2), [sp.Integer(x) for x in m], ovname, scale))
         return rec
     if fam == "kal":
         a, d = job[2], job[3]
         x, y, z = (sp.Rational(v, d) for v in a)
         perms = [(x, y, z), (y, x, z), (x, z, y), (z, y, x), (y, z, x), (z, x, y)]
-        return {"k": "kal", "id": rid, "a": list(a), "d": d, "vals": [_enc_real(sp, psm.Kallen(*p).doit()) for p in perms]}
+        return {"k": "kal", "id": rid, "a": list(a), "d": d, "vals": [_enc_real(sp, _kallen(sp, psm, *p)) for p in perms]}
     if fam == "kaf":
         (x, b, c), e = job[2], job[3]
-        v = psm.Kallen(sp.Rational(x, e * e), sp.Rational(b, e) ** 2, sp.Rational(c, e) ** 2).doit()
+        v = _kallen(sp, psm, sp.Rational(x, e * e), sp.Rational(b, e) ** 2, sp.Rational(c, e) ** 2)
         return {"k": "kaf", "id": rid, "a": [x, b, c], "e": e, "val": _enc_real(sp, v)}
     raise Machinery(f"unknown job family {fam}")
 
@@ -140,7 +168,7 @@ def _tuplify(x):
 def build_jobs(tier: str, rng: random.Random) -> list[tuple]:
     jobs = []
     rid = 0
-    configs = ps.mass_configs(7) if tier == "thorough" else sorted(set(ps.mass_configs(5)) | set(ps.QUICK_CONFIGS))
+    configs = ps.mass_configs(7) if tier == "thorough" else sorted(set(ps.mass_configs(4)) | set(ps.QUICK_CONFIGS))
     for m in configs:
         r1, r2 = ps.box(m)
         for s1 in r1:
@@ -150,6 +178,16 @@ def build_jobs(tier: str, rng: random.Random) -> list[tuple]:
     for ev in ps.gen_events(4000 if tier == "thorough" else 600, rng):
         rid += 1
         jobs.append(("ev", rid, ev, OV_NAMES[rid % len(OV_NAMES)]))
+    # scaled family: the same lattice points at mass scales 1/1000, 1/100000 and 1000 (the property is
+    # scale invariant; an absolute tolerance or threshold in the implementation is not)
+    base = [j for j in jobs if j[0] == "box" and j[3] > 0]
+    evs = [j for j in jobs if j[0] == "ev"]
+    for j in rng.sample(base, min(len(base), 12000 if tier == "thorough" else 1200)):
+        rid += 1
+        jobs.append(("box", rid, j[2], j[3], j[4], OV_NAMES[rid % len(OV_NAMES)], SCALES[rid % len(SCALES)]))
+    for j in rng.sample(evs, min(len(evs), 1500 if tier == "thorough" else 240)):
+        rid += 1
+        jobs.append(("ev", rid, j[2], OV_NAMES[rid % len(OV_NAMES)], SCALES[rid % len(SCALES)]))
     n = 2000 if tier == "thorough" else 250
     for _ in range(n):
         rid += 1
@@ -214,6 +252,12 @@ def confirm(clause: str, rec: dict) -> bool:
 
 
 def signature(clause: str, rec: dict, info) -> str:
+    sig = _signature(clause, rec, info) + (f":raises({rec['exc']})" if rec.get("exc") else "")
+    sc = rec.get("sc", [1, 1])
+    return sig if sc == [1, 1] else f"{sig}:at-mass-scale-x{sc[0]}/{sc[1]}"
+
+
+def _signature(clause: str, rec: dict, info) -> str:
     if clause == "IndicatorBox":
         M = tuple(x * x for x in rec["m"])
         on = ps.kibble_int(rec["s"][0], rec["s"][1], M) == 0
@@ -231,7 +275,7 @@ def signature(clause: str, rec: dict, info) -> str:
 
 
 VIOLATION_CLAUSES = {"Sigma3", "KibbleNonPositive", "IndicatorEvent", "IndicatorBox", "IndicatorRange", "KallenSymmetric", "KallenFactorises", "KallenValue"}
-NEEDED_STATS = ["ev", "ev_boundary", "ev_massless", "ev_equalmass", "box_inside", "box_outside", "box_on_boundary", "ov_nan", "ov_rational", "kal", "kaf"]
+NEEDED_STATS = ["ev", "ev_boundary", "ev_massless", "ev_equalmass", "box_inside", "box_outside", "box_on_boundary", "ov_nan", "ov_rational", "kal", "kaf", "scaled"]
 
 
 def validate(records, par: int = 4, batch: int = 15000):
@@ -308,13 +352,12 @@ def run(chk, replay=None):
         "masses enter the implementation only squared: events use m_i = sqrt(integer)",
         "the PDG limits are taken in discriminant form (square roots multiplied out); sigma1 = 0 is excluded from the 'exactly when' clause",
     )
-    # 1. the reference on its own lattice ------------------------------------------------------
+    # 1. the reference on its own lattice (runs while the implementation is being evaluated) ------
+    mc_pool = ThreadPoolExecutor(max_workers=1)
+    mc_future = None
     if not replay:
-        res = tlc.run("PhaseSpace3_MC", MC_CFG.format(maxm0=9 if tier == "thorough" else 6, kalr=10 if tier == "thorough" else 6, kalb=5),
-                      workers=6, fast_start=False, timeout=1500)
-        chk.add_tlc("reference_exhaustive", res)
-        if not res.ok:
-            raise Machinery(f"the reference PhaseSpace3 violates its own law {res.violated}: specification error\n" + "\n".join(res.error_trace[:40]))
+        mc_future = mc_pool.submit(tlc.run, "PhaseSpace3_MC", MC_CFG.format(maxm0=9 if tier == "thorough" else 5, kalr=10 if tier == "thorough" else 6, kalb=5),
+                                   workers=6, fast_start=False, timeout=1500)
 
     # 2. the implementation, exactly, on the lattices ---------------------------------------------
     if replay and replay.get("case"):
@@ -324,14 +367,20 @@ def run(chk, replay=None):
     t0 = time.time()
     records = run_impl(jobs)
     chk.part("implementation", points=len(records), wall_s=round(time.time() - t0, 1))
+    if mc_future is not None:
+        res = mc_future.result()
+        chk.add_tlc("reference_exhaustive", res)
+        if not res.ok:
+            raise Machinery(f"the reference PhaseSpace3 violates its own law {res.violated}: specification error\n" + "\n".join(res.error_trace[:40]))
+    mc_pool.shutdown()
     by_id = {r["id"]: (r, j) for r, j in zip(records, jobs)}
     chk.count(len(records))
     for r in records:
         if r["k"] == "box":
             if r["s"][0] > 0:
-                chk.nontrivial(("box", tuple(r["m"]), tuple(r["s"])))
+                chk.nontrivial(("box", tuple(r["m"]), tuple(r["s"]), tuple(r["sc"])))
         elif r["k"] == "ev":
-            chk.nontrivial(("ev", tuple(map(tuple, r["p"]))))
+            chk.nontrivial(("ev", tuple(map(tuple, r["p"])), tuple(r["sc"])))
         elif r["k"] == "kal":
             if len(set(r["a"])) > 1:
                 chk.nontrivial(("kal", tuple(r["a"]), r["d"]))
@@ -368,8 +417,10 @@ def run(chk, replay=None):
         if missing:
             raise Machinery(f"vacuous run: no record exercised {missing}")
     chk.cov["rule"] = (
-        "box: every integer (sigma1, sigma2) of the bounding box of each integer mass configuration (quick: all with m0 <= 5 plus 10 with "
-        "m0 = 6, 7 incl. massless/equal-mass; thorough: all 210 with m0 <= 7), outside values rotated over {default, 0, -1, 5/2, nan, -7/3}; "
+        "box: every integer (sigma1, sigma2) of the bounding box of each integer mass configuration (quick: all with m0 <= 4 plus 14 with "
+        "m0 <= 7 incl. massless/equal-mass; thorough: all 210 with m0 <= 7), outside values rotated over {default, 0, -1, 5/2, nan, -7/3}; "
+        "scaled: a seeded subset of the box points and events evaluated exactly at mass scales 1/1000, 1/100000 and 1000 (masses*lam, sigma*lam^2 as "
+        "SymPy rationals), judged by TLC on the unscaled integer point; "
         "ev: stratified integer four-vector events (E <= 3, |p| <= 2, m0^2 <= 49; massless, equal-mass, collinear, moving parent); "
         "kal/kaf: seeded Kallen arguments (integers, halves, thirds; perfect squares). One record = one exact evaluation of the "
         "implementation validated by TLC (counted as a trace). Non-trivial/distinct: distinct lattice points with sigma1 > 0 (box), "
